@@ -371,4 +371,7 @@ def check(ctx, run):
                            'the path evaluator', 'selected items must come out in the order the path lists them, repetitions included (`$[3, 0]`, `$[1, 1]`); reordering or de-duplicating positions changes the result',
                            only=lambda p_: p_.startswith('jsonpath::selector::'))
     numcodec.r18_4(ctx, run, rule='R08.5/R18.4')
+    import boundaries
+    _bf = lambda p_: p_.startswith('jsonpath::selector::')
+    boundaries.check(ctx, run, 'R08.11', [p_ for p_ in sorted(boundaries.load_baseline() or {}) if _bf(p_)], 'the path evaluator rejects an index or a range')
     return report.finish(run, level='other', explanation=EXPLANATION, assumptions=["A1: the document is valid JSONB; slices of `root` are not panic obligations", "A2/A3"])
